@@ -429,6 +429,7 @@ func runC08(c *Ctx, r *Report) {
 	c08QuicAddr(c, r, "C08.R11")
 	c09R6(c, r, "C08.R12")     // a UDP client never reads another client's datagram: queued datagram records do not alias
 	c17Handle(c, r, "C08.R10") // per-connection state of a handler (the throttle's own limiter) is built per connection, only the handler-wide limiter is shared
+	c09R7(c, r, "C08.R13")     // a datagram's pooled buffer goes back to the pool only when the datagram is consumed: what is kept of it for the next read is never storage another client's datagram is received into
 	c13R3(c, r, "C08.R7")      // the hand-off release discipline is also a C08 obligation (buffer shared across connections)
 }
 
@@ -1740,6 +1741,7 @@ func runC13(c *Ctx, r *Report) {
 	c13PerListener(c, r, "C13.R13")
 	c13R6(c, r, "C13.R6")
 	c13R10(c, r, "C13.R10")
+	c01R1(c, r, "C13.R14") // ... and every matcher of a set is bracketed by its own freeze/unfreeze: the cursor is back at the first unconsumed byte when the hand-off runs
 	c01R2(c, r, "C13.R9")  // what the consumer of the wrapped listener reads starts at the first unconsumed byte: freeze/unfreeze restore exactly the cursor
 	c05R23(c, r, "C13.R8") // the hand-off is a fallback: it must run with the matching deadline cleared, or the consumer's reads time out
 	// R7
